@@ -1205,11 +1205,15 @@ def rows_of(f: Func):
 
 def analyse(repo):
     an = Analysis(repo)
+    if not an.lib.all:
+        raise Lost(f"no source found under {repo}/commonroad")
     an.solve()
     ops, missing = operations(an.lib)
     table = {}
     for name, f in ops:
         table[name] = [list(r) for r in rows_of(f)]
+    used = {(r[1], r[2], r[3]) for rows in table.values() for r in rows}
+    table[SITES] = {"|".join(c): sorted(an.sites.get(c, []))[:4] for c in sorted(used)}
     return table, missing, an
 
 
@@ -1226,17 +1230,31 @@ open CR.Frame.Tie
 """
 
 
+SITES = "__sites__"      # pseudo-operation of the stored table: write class -> example statements (comments of the generated file)
+
+
 def lean_str(s):
     return '"' + str(s).replace("\\", "\\\\").replace('"', '\\"') + '"'
 
 
 def emit(table, lost_ops):
+    table = dict(table)
+    sites = table.pop(SITES, {})
     classes = sorted({(r[1], r[2], r[3]) for rows in table.values() for r in rows})
     idx = {c: i for i, c in enumerate(classes)}
+    reach = {}
+    for op in sorted(table):
+        for r in table[op]:
+            reach.setdefault((r[1], r[2], r[3]), []).append(f"{op}({r[0]})")
+
+    def note(c):
+        ops = reach.get(c, [])
+        return ("  -- e.g. " + "; ".join(sites.get("|".join(c), [])[:3]) + "   reached by " + str(len(ops)) + " (operation, root) pairs, e.g. "
+                + ", ".join(ops[:3])).replace("\n", " ")
     out = [HEADER]
     out.append("/-- every distinct (owner class, attribute, kind) some read-only operation writes through its receiver or an argument -/\n")
     out.append("def C18_writeClasses : List W := [\n" + ",\n".join(
-        f"  ⟨{lean_str(o)}, {lean_str(a)}, .{k}⟩" for (o, a, k) in classes) + "]\n\n")
+        f"{note((o, a, k))}\n  ⟨{lean_str(o)}, {lean_str(a)}, .{k}⟩" for (o, a, k) in classes) + "]\n\n")
     out.append("/-- operation ↦ indices into `C18_writeClasses`; the comment says where the statement stands -/\n")
     lines = []
     for op in sorted(table):
@@ -1263,12 +1281,15 @@ def regenerate(repo, gen_dir):
     status = {}
     try:
         table, missing, an = analyse(repo)
-        status["C18_write_sets"] = f"ok ({len(table)} operations, {len(an.lib.all)} functions, {an.rounds} rounds)"
+        status["C18_write_sets"] = f"ok ({len(table) - 1} operations, {len(an.lib.all)} functions, {an.rounds} rounds)"
     except (Lost, SyntaxError, RecursionError, KeyError, IndexError, AttributeError, TypeError, ValueError, OSError, ImportError) as e:
         table, missing = dict(last), []
         status["C18_write_sets"] = f"lost ({type(e).__name__}: {e}); last good table used"
     lost_ops = []
     for op in sorted(last):
+        if op == SITES:
+            table.setdefault(SITES, {}).update({k: v for k, v in last[op].items() if k not in table.get(SITES, {})})
+            continue
         if op not in table:
             table[op] = last[op]
             lost_ops.append(op)
@@ -1297,8 +1318,9 @@ if __name__ == "__main__":
     elif len(sys.argv) > 1 and sys.argv[1] == "--dump":
         table, missing, an = analyse(repo)
         for op in sorted(table):
-            for r in table[op]:
-                print(op, *r, sep="\t")
+            if op != SITES:
+                for r in table[op]:
+                    print(op, *r, sep="\t")
     else:
         st = regenerate(repo, os.path.join(os.path.dirname(os.path.dirname(HERE)), "lean", "Gen"))
         for k, v in st.items():
